@@ -41,7 +41,10 @@ def absence_list(rng):
         base |= {a, a + 1, a + 2} if rng.random() < 0.4 else {a, a + 1}
     if rng.random() < 0.3:
         base |= {rng.choice([60, 75, 90, 150])}      # beyond the end of the run
-    return sorted(base)
+    out = sorted(base)
+    if rng.random() < 0.3:
+        rng.shuffle(out)                              # not in ascending order
+    return out
 
 
 def make_case(prop, seed, i, tier):
